@@ -358,6 +358,7 @@ class Executor:
         self.concrete = None     # {z3 const name: int} -> concrete evaluation mode (translator validation)
         self.functions_executed = set()
         self.models_used = set()
+        self.tbind = []          # stack of bindings for the type parameter T of generic crate functions
 
     # ---- path exploration by re-execution ---------------------------------------------------------
     def explore(self, run, on_path, max_paths=200000):
@@ -571,6 +572,14 @@ class Executor:
         if callee not in self.models.exact:
             target = self.prog.resolve(callee)
         if target is not None and not self.models.prefer_model(callee):
+            # a generic crate function called with an explicit type argument (`parse_integer::<u64>`): bind T for the callee
+            m = re.search(r'::<(u8|u16|u32|u64|usize|i8|i16|i32|i64|isize)>$', callee)
+            if m:
+                self.tbind.append(m.group(1))
+                try:
+                    return self.call(target, argv)
+                finally:
+                    self.tbind.pop()
             return self.call(target, argv)
         fn = self.models.lookup(callee)
         if fn is None:
